@@ -729,6 +729,99 @@ X25519_LOW = [
 ]
 
 
+def ref_montgomery(k, u, bits):
+    """RFC 7748 section 5, X25519 (bits=255) / X448 (bits=448)."""
+    if bits == 255:
+        p, a24 = 2 ** 255 - 19, 121665
+        kb = bytearray(k)
+        kb[0] &= 248
+        kb[31] &= 127
+        kb[31] |= 64
+        ub = bytearray(u)
+        ub[31] &= 127
+    else:
+        p, a24 = 2 ** 448 - 2 ** 224 - 1, 39081
+        kb = bytearray(k)
+        kb[0] &= 252
+        kb[55] |= 128
+        ub = bytearray(u)
+    kn = int.from_bytes(kb, "little")
+    x1 = int.from_bytes(ub, "little") % p
+    x2, z2, x3, z3, swap = 1, 0, x1, 1, 0
+    for t in reversed(range(bits if bits == 255 else 448)):
+        kt = (kn >> t) & 1
+        swap ^= kt
+        if swap:
+            x2, x3, z2, z3 = x3, x2, z3, z2
+        swap = kt
+        A, B = (x2 + z2) % p, (x2 - z2) % p
+        AA, BB = A * A % p, B * B % p
+        E = (AA - BB) % p
+        C, D = (x3 + z3) % p, (x3 - z3) % p
+        DA, CB = D * A % p, C * B % p
+        x3 = (DA + CB) ** 2 % p
+        z3 = x1 * (DA - CB) ** 2 % p
+        x2 = AA * BB % p
+        z2 = E * (AA + a24 * E) % p
+    if swap:
+        x2, x3, z2, z3 = x3, x2, z3, z2
+    return (x2 * pow(z2, p - 2, p) % p).to_bytes(len(kb), "little")
+
+
+def ref_curve(g):
+    """the curve a group name denotes (RFC 8422 / 7027 / 8734), straight
+    from python-ecdsa's table - not through tlslite's own name mapping"""
+    import ecdsa
+    return {"secp256r1": ecdsa.NIST256p, "secp384r1": ecdsa.NIST384p,
+            "secp521r1": ecdsa.NIST521p, "secp256k1": ecdsa.SECP256k1,
+            "brainpoolP256r1": ecdsa.BRAINPOOLP256r1,
+            "brainpoolP384r1": ecdsa.BRAINPOOLP384r1,
+            "brainpoolP512r1": ecdsa.BRAINPOOLP512r1,
+            "brainpoolP256r1tls13": ecdsa.BRAINPOOLP256r1,
+            "brainpoolP384r1tls13": ecdsa.BRAINPOOLP384r1,
+            "brainpoolP512r1tls13": ecdsa.BRAINPOOLP512r1}[g]
+
+
+def ecdh_against_reference(g, xa, ya, xb, yb, sa, labels):
+    """public values and shared secret of party a against the definition of
+    the named group"""
+    if g in ("x25519", "x448"):
+        bits = 255 if g == "x25519" else 448
+        base = (9).to_bytes(32, "little") if bits == 255 else \
+            (5).to_bytes(56, "little")
+        if bytes(ya) != ref_montgomery(bytes(xa), base, bits):
+            return bad("public-value-differs-from-reference:" + g, "",
+                       labels=labels)
+        if bytes(sa) != ref_montgomery(bytes(xa), bytes(yb), bits):
+            return bad("shared-secret-differs-from-reference:" + g, "",
+                       labels=labels)
+        return None
+    from ecdsa.ellipticcurve import Point
+    cur = ref_curve(g)
+    n = cur.baselen
+    for who, y in (("a", ya), ("b", yb)):
+        y = bytes(y)
+        if len(y) != 1 + 2 * n or y[0] != 4:
+            return bad("public-value-not-a-point-of-the-group:" + g,
+                       "%d bytes, first %02x; the group's points take %d" % (
+                           len(y), y[0] if y else 0, 1 + 2 * n),
+                       labels=labels)
+        px, py = int.from_bytes(y[1:1 + n], "big"), \
+            int.from_bytes(y[1 + n:], "big")
+        if not cur.curve.contains_point(px, py):
+            return bad("public-value-not-a-point-of-the-group:" + g,
+                       "not on the curve", labels=labels)
+    pb = Point(cur.curve, int.from_bytes(bytes(yb)[1:1 + n], "big"),
+               int.from_bytes(bytes(yb)[1 + n:], "big"))
+    # (the private value is a python-ecdsa SigningKey or a plain number)
+    ka = xa.privkey.secret_multiplier if hasattr(xa, "privkey") else int(xa)
+    want = (pb * ka).x().to_bytes(n, "big")
+    if bytes(sa) != want:
+        return bad("shared-secret-differs-from-reference:" + g, "",
+                   labels=labels)
+    return None
+
+
 def do_ecdh(case):
     g = case["group"]
     gid = getattr(GroupName, g)
@@ -743,7 +836,10 @@ def do_ecdh(case):
         sa, sb = a.calc_shared_key(xa, yb), b.calc_shared_key(xb, ya)
         if bytes(sa) != bytes(sb):
             return bad("secrets-differ:ecdh:" + g, "", labels=labels)
-        return good(nt=False, labels=labels)
+        r = ecdh_against_reference(g, xa, ya, xb, yb, sa, labels)
+        if r:
+            return r
+        return good(labels=labels)
     yb = bytearray(yb)
     is_x = g in ("x25519", "x448")
     if badk == "zero":
@@ -1021,7 +1117,9 @@ def cases(draw, tier):
     elif f == "ecdh":
         c.update(group=draw(st.sampled_from(
             ["secp256r1", "secp384r1", "secp521r1", "brainpoolP256r1",
-             "x25519", "x448", "x25519"])),
+             "x25519", "x448", "x25519", "brainpoolP384r1",
+             "brainpoolP512r1", "brainpoolP256r1tls13",
+             "brainpoolP384r1tls13", "brainpoolP512r1tls13"])),
             ver=draw(st.sampled_from([[3, 3], [3, 4]])),
             bad=draw(st.sampled_from(
                 [None, "zero", "short", "long", "empty", "low_order",
@@ -1080,6 +1178,13 @@ def explicit(tier, seed):
             for k in range(3):
                 yield {"f": "ffdh", "group": grp, "ver": ver, "bad": None,
                        "lead0": True, "s": seed + k, "pos": 0, "n": 0}
+    for grp in ("secp256r1", "secp384r1", "secp521r1", "brainpoolP256r1",
+                "brainpoolP384r1", "brainpoolP512r1", "brainpoolP256r1tls13",
+                "brainpoolP384r1tls13", "brainpoolP512r1tls13", "x25519",
+                "x448"):
+        for ver in ([3, 3], [3, 4]):
+            yield {"f": "ecdh", "group": grp, "ver": ver, "bad": None,
+                   "s": seed, "pos": 0, "n": 0}
     for i, lo in enumerate(X25519_LOW):
         yield {"f": "ecdh", "group": "x25519", "ver": [3, 4],
                "bad": "low_order", "s": i, "pos": 0, "n": 0}
